@@ -94,7 +94,7 @@ func init() {
 			"Scoped exclusions: the saved snapshots reachable only through `backtrack` (LIFO argument, stated) and the shared reader. Does NOT decide which binding is the most recent one when a name is bound repeatedly, nor named-loop nesting." +
 			" Round 4: (R7) the restore used by BACKTRACK assigns every field of the state that matching writes, from the same field of the checkpoint; (R8) a loop record's bindings are indexed with that record's own iteration counter." +
 			" Round 5: (R9) the empty text matches with zero width; (R10) a variable reference is not compiled to a literal." +
-			" Round 6: (R11) a stored definition is read only where the lookup in the command's own scope has missed.",
+			" Round 6: (R11) a stored definition is read only where the lookup in the command's own scope has missed; (R12) MATCHVAR reads from every table INSERTVARIABLE writes to.",
 		Assumptions: commonAssumptions,
 		Rules: []RuleFn{
 			{Name: "C02.R1", Run: func(c *Ctx) { ruleSnapshotIsolation(c, "C02.R1") }},
@@ -107,6 +107,7 @@ func init() {
 			{Name: "C02.R9", Run: func(c *Ctx) { ruleEmptyTextMatches(c, "C02.R9") }},
 			{Name: "C02.R10", Run: func(c *Ctx) { ruleReferenceNotFolded(c, "C02.R10") }},
 			{Name: "C02.R11", Run: func(c *Ctx) { ruleScopeBeforeDefinitions(c, "C02.R11") }},
+			{Name: "C02.R12", Run: func(c *Ctx) { ruleBindingReaderCoversWriter(c, "C02.R12") }},
 		},
 	})
 	register(&Property{
@@ -424,7 +425,7 @@ func init() {
 		Explanation: "Equivalence with a regex engine is NOT decided (value-level; it is C01 plus this). Decided: the regex-specific translation tables and the numbering order - (R1) the quantifier table of parse_regexp_quantifier, extracted from the AstLoop literals and the character tests that control them (* + ? {m} {m,} {m,n}), and that the lazy marker applies to every quantifier; (R2) the atom table (^ $ . \\d \\D \\s \\S); (R3) a capturing group reads its number before its body is parsed (numbering by opening parenthesis)." +
 			" Round 4: (R6) the loop-stack protocol (same rule as C01.R5); (R7) no byte of a regexp literal is converted to a string as a code point; (R8) the scan discipline (same rule as C01.R3)." +
 			" Round 5: (R9) group numbering restarts per literal and every capturing group takes a number; (R10) the empty text matches with zero width; (R11) renumbering passes cover every program-counter field." +
-			" Round 6: (R12) checkpoints are isolated snapshots; (R13) every attempt starts from a fresh state; (R14) alternatives are tried in written order; (R15) the compiled program is read-only at run time.",
+			" Round 6: (R12) checkpoints are isolated snapshots; (R13) every attempt starts from a fresh state; (R14) alternatives are tried in written order; (R15) the compiled program is read-only at run time; (R16) the copies of an unrolled loop body may each declare the body's captures.",
 		Assumptions: commonAssumptions,
 		Rules: []RuleFn{
 			{Name: "C14.R1", Run: func(c *Ctx) { ruleRegexQuantifiers(c, "C14.R1") }},
@@ -442,6 +443,7 @@ func init() {
 			{Name: "C14.R13", Run: func(c *Ctx) { ruleAttemptFresh(c, "C14.R13") }},
 			{Name: "C14.R14", Run: func(c *Ctx) { ruleAlternativeOrder(c, "C14.R14") }},
 			{Name: "C14.R15", Run: func(c *Ctx) { ruleProgramReadOnly(c, "C14.R15") }},
+			{Name: "C14.R16", Run: func(c *Ctx) { ruleUnrolledBodiesMayDeclare(c, "C14.R16") }},
 		},
 	})
 	register(&Property{
